@@ -115,8 +115,11 @@ func init() {
 		// non-ASCII texts whose characters are consumed by ONE read (a literal of several bytes, whole line, a
 		// back-reference): every clause against the window of the implementation's own `all` result, columns included
 		nbodies := []string{"('\u00e9' or 'e')", "'\u00e9'", "'cr\u00e8me'", "(letter = l) '\u00e9'", "whole line", "('\u00e9' = x) maybe x",
-			"'\u20ac' at least 1 digit", "in '\u00e9', 'e', 't'"}
-		ntexts := []string{"\u00e9t\u00e9 de m\u00e9m\u00e9", "\u00e9\n\u00e9 \u00e9", "cr\u00e8me cr\u00e8me\ncr\u00e8me", "\u20ac12 \u20ac7 x\u20ac3", "\u00e9\u00e9\u00e9\u00e9\u00e9"}
+			"'\u20ac' at least 1 digit", "in '\u00e9', 'e', 't'", "caseless 'error'", "caseless 'K'", "caseless 'i' any", "'error'"}
+		ntexts := []string{"\u00e9t\u00e9 de m\u00e9m\u00e9", "\u00e9\n\u00e9 \u00e9", "cr\u00e8me cr\u00e8me\ncr\u00e8me", "\u20ac12 \u20ac7 x\u20ac3", "\u00e9\u00e9\u00e9\u00e9\u00e9",
+			// characters whose lower / upper case form has another length in UTF-8 (U+212A, U+0130, U+2126, U+1E9E, U+023A) and bytes
+			// that are not UTF-8, in front of and between the occurrences
+			"300 \u212a: error, Error, ERROR\nerror again k K", "\u0130i error I\u0130 ERROR \u2126 error", "\u1e9e\u023a error \xff ERROR \xc3 error k"}
 		for bi, nb := range nbodies {
 			for ti, nt := range ntexts {
 				for ki, kind := range []string{"find", "replace"} {
